@@ -113,6 +113,15 @@ class RebuildProp(Prop):
                 m = copy.deepcopy(r)
                 m["outside_ops"] = [{"kind": "mkdir", "path": "61"}]
                 out.append((m, "C19.inside"))
+            # the path-resolution model must notice a place that was not touched / one more that was
+            for r in first(recs, lambda r: r.get("op") == "pathres" and len(r["touched"]) >= 2):
+                m = copy.deepcopy(r)
+                m["touched"] = m["touched"][:-1]
+                out.append((m, "M19.impl"))
+            for r in first(recs, lambda r: r.get("op") == "pathres" and not r["touched"]):
+                m = copy.deepcopy(r)
+                m["touched"] = [["s", "out", "f"]]
+                out.append((m, "M19.impl"))
         return out
 
     def scen(self, rng, P, v, tree_spec, cands_fn, dest_fn=None, **kw):
@@ -280,6 +289,23 @@ class C13(RebuildProp):
                  "clauses": list(self.clauses), "meta_args": ("dir", "files", "both")[k % 3 if kind != 2 else (k // 3) % 3],
                  "route": "cli" if k % 5 == 0 else "lib"}
             out.append(c)
+        # batches that mix piece lengths and versions, with a file of identical bytes (same pieces root, its own
+        # piece-layer entry in each metafile) under different names in both torrents
+        for k in range(24 if tier == "thorough" else 9):
+            v = (2, 3, 1)[k % 3]
+            v2 = (3, 2, 2)[k % 3] if k % 2 else v
+            P1, P2 = ((B, 2 * B), (2 * B, B), (B, 4 * B))[(k // 3) % 3]
+            sz = (5 * B + 1, 8 * B, 9 * B + 7)[k % 3]
+
+            def custom2(name, entries, P_, v_):
+                return {"name": name, "single": False, "P": P_, "version": v_,
+                        "files": [{"path": list(p), "size": s, "mode": m, "dest_pre": "absent",
+                                   "cands": [self.cand(rng, "intact")]} for p, s, m in entries]}
+            ts = [custom2("pack-a", [(["big.bin"], sz, "same"), (["a.txt"], 77 + k, "rand")], P1, v),
+                  custom2("pack-b", [(["data", "huge.bin"], sz, "same"), (["b.txt"], 99 + k, "rand")], P2, v2)]
+            out.append({"version": v, "P": P1, "tree": ts[0], "more_trees": ts[1:], "nsearch": 1 + k % 2, "unrelated": 1,
+                        "clauses": [c for c in self.clauses if not c.startswith("M")], "meta_args": ("dir", "files")[k % 2],
+                        "route": "cli" if k % 4 == 0 else "lib"})
         # piece-aligned v1 metafiles (padding entries in the file list): this tool's own --align output and
         # reference-encoded BEP 47 lists, with and without a padding entry after the last file
         for k in range(60 if tier == "thorough" else 18):
@@ -416,6 +442,16 @@ class C14(RebuildProp):
                 c["more_trees"] = [t2]
                 c["same_name"] = True
                 out.append(c)
+        # a payload that has members named like scratch files (x.bin.part, x.bin.tmp, x.bin~ ...): they are complete in
+        # the destination already, only x.bin is to be placed - and the other way round
+        nT = len(SHAPES["DT"])
+        for v in (1, 2, 3):
+            for missing in (0, None):
+                sizes = tuple(B + 7 + 3 * k for k in range(nT))
+                c = self.scen(rng, B, v, ("DT", sizes),
+                              lambda fi, f, missing=missing: [self.cand(rng, "intact", search=0)] if (fi == 0) == (missing == 0) else [],
+                              lambda fi, f, missing=missing: "absent" if (fi == 0) == (missing == 0) else "correct", nsearch=1)
+                out.append(c)
         for v in (1, 2, 3):           # only dead decoys: nothing may be placed
             for sizes in ((B + 1, 2 * B), (5, 3 * B), (2 * B, 2 * B)):
                 out.append(self.scen(rng, B, v, ("D2", sizes), lambda fi, f: [self.cand(rng, "decoy_all")], nsearch=1))
@@ -429,6 +465,24 @@ class C14(RebuildProp):
 
     def signature(self, case, rec, clause):
         return "%s/v%s" % (clause, case["version"] if case else "?")
+
+
+def pathres_universe():
+    """The universe of PathRes.tla (destination pre-states with symbolic links x metafile entries with hostile
+    elements), emitted by TLC together with the model's own prediction."""
+    from . import core, tlaval
+    from .core import Machinery
+    r = core.run_tlc("PathRes.tla", "Sim_PathRes.cfg", workers=1, timeout=900)
+    if r.error or r.violation:
+        raise Machinery("PathRes emission failed: %s" % (r.error or r.violation))
+    seen, out = set(), []
+    for _, w in tlaval.find_tagged(r.out, "PRWORLD"):
+        key = repr(w)
+        if key in seen:
+            continue
+        seen.add(key)
+        out.append(w)
+    return out, r.cmd
 
 
 # the destination directory of every scenario is <sandbox>/dest
@@ -516,6 +570,7 @@ class C19(RebuildProp):
                     out.append({"version": v, "P": B, "tree": t, "meta_src": ("ref", "own")[len(out) % 2], "hostile": True,
                                 "dest_links": links, "nsearch": 1, "unrelated": 1, "clauses": list(self.clauses),
                                 "route": ("lib", "cli")[(len(out) // 2) % 2]})
+        out += self.pathres_cases(tier, rng)
         # benign controls: ordinary names must keep working (copy happens inside the destination)
         for v in (1, 2, 3):
             t = mk_tree("D2", (B + 5, 2 * B))
@@ -525,7 +580,64 @@ class C19(RebuildProp):
                         "clauses": list(self.clauses)})
         return out
 
+    def mc(self, tier):
+        bad = {"nocheck": "pinned commit: join and copy, no containment test",
+               "checkonly": "2ccdc01: tested on the resolved path, unresolved spelling copied ('../ghost/../dest/x' creates ghost)",
+               "normpath": "lexical normalisation only: a symbolic link inside the destination leads out",
+               "lastcomp": "only the parent directory resolved (seed R12-C19): a link at the file position leads out",
+               "charprefix": "character-wise prefix test (seed C19): dest_old passes for dest"}
+        return RebuildProp.mc(self, tier) + [
+            {"module": "PathRes.tla", "cfg": "MC_PathRes.cfg",
+             "what": "path resolution with symbolic links + _destination + copypath (fixed): every mkdir and the write "
+                     "resolve inside the destination for 17 820 (destination pre-state, metafile entry) worlds"}] + [
+            {"module": "PathRes.tla", "cfg": "MC_PathRes_%s.cfg" % v, "expect": "fail", "workers": 2, "what": w}
+            for v, w in bad.items()]
+
+    def pathres_cases(self, tier, rng):
+        """PathRes.tla's universe replayed into the real rebuild (quick: a stratified seeded sample)."""
+        worlds, cmd = pathres_universe()
+        norm = lambda x: sorted(list(p) for p in x)
+        cases = []
+        for n, w in enumerate(worlds):
+            world = {"dirs": norm(w["dirs"]), "files": norm(w["files"]), "links": sorted([list(l[0]), list(l[1])] for l in w["links"]),
+                     "dest": list(w["dest"]), "entry": [{"abs": bool(e["abs"]), "comps": list(e["comps"])} for e in w["entry"]]}
+            for v in (1, 2, 3):
+                if v != 1 and any(e["comps"] == [""] for e in world["entry"][1:]):
+                    continue            # the empty key is the leaf marker of a file tree, it cannot name a directory
+                cases.append({"op": "pathres", "world": world, "version": v, "P": B, "hostile": True,
+                              "model": {"accepted": bool(w["accepted"]), "nmuts": len(w["muts"])},
+                              "clauses": ["C19.inside", "M19.impl"]})
+        total = len(cases)
+        if tier != "thorough":
+            # stratified: every (links of the world, first two elements, version) class once, then cut
+            key = lambda c: (repr(c["world"]["links"]), repr(c["world"]["entry"][:2]), c["version"])
+            byk = {}
+            for c in cases:
+                byk.setdefault(key(c), []).append(c)
+            pick = [rng.choice(v) for _, v in sorted(byk.items())]
+            rng.shuffle(pick)
+            cases = pick[:700]
+        self._pathres = {"worlds": len(worlds), "cases_total": total, "cases_run": len(cases), "cmd": cmd,
+                         "complete": tier == "thorough"}
+        return cases
+
+    def extra_coverage(self, tier, cases, recs):
+        return {"pathres_universe_replay": getattr(self, "_pathres", None)}
+
+    def nontrivial(self, case):
+        if case.get("op") == "pathres":
+            return ("pathres", repr(case["world"]), case["version"])
+        return RebuildProp.nontrivial(self, case)
+
+    def sample(self, case, rec):
+        if case.get("op") == "pathres":
+            return {"pathres_world": case["world"], "version": case["version"], "model": case["model"],
+                    "touched": rec.get("touched") if rec else None, "status": rec.get("status") if rec else None}
+        return RebuildProp.sample(self, case, rec)
+
     def signature(self, case, rec, clause):
+        if case and case.get("op") == "pathres":
+            return "%s/world/v%s" % (clause, case["version"])
         return "%s/v%s" % (clause, case["version"] if case else "?")
 
 
